@@ -422,6 +422,73 @@ def recipe_case(bs: Any, tag: str) -> Case:
                 tags=["construct-Recipe", "recipe-" + ("refused" if got != "ok" else "accepted"), tag])
 
 
+def fork_path(steps: Any, i: int) -> Any:
+    """The blocks of the 'follows' chain of step i, oldest first."""
+    path = []
+    while i is not None:
+        path.append(steps[i]["trees"])
+        i = steps[i]["follows"]
+    return list(reversed(path))
+
+
+def attempt_fork(steps: Any) -> str:
+    """Construct the Recipe objects in the given ORDER in this one call (each follows an earlier one of the list, or
+    nothing); the outcome is that of the LAST construction ("early:<error>" if an earlier one was refused)."""
+    import recipe_grid.recipe as R
+    objs: List[Any] = []
+    for i, stp in enumerate(steps):
+        trees = tuple(ser.node_unjson(t) for t in stp["trees"])
+        try:
+            objs.append(R.Recipe(trees, objs[stp["follows"]] if stp["follows"] is not None else None))
+        except R.RecipeInvariantError as e:
+            return type(e).__name__ if i == len(steps) - 1 else "early:" + type(e).__name__
+    return "ok"
+
+
+def fork_case(steps: Any, tag: str) -> Case:
+    """Recipes that follow the SAME earlier Recipe object, or a new follower of an inner block of an already built
+    chain: each construction sees only the roots of its own 'follows' chain, whatever was constructed before."""
+    for i in range(len(steps) - 1):
+        if expected_recipe(fork_path(steps, i)) != "ok":
+            raise AssertionError("fork scenario: an earlier construction is itself invalid")
+    bs = fork_path(steps, len(steps) - 1)
+    got = attempt_fork(steps)
+    exp = expected_recipe(bs)
+    viol = None if got == exp else (f"after constructing {len(steps) - 1} other recipes in this process, Recipe construction "
+                                    f"outcome {got}, documented {exp}")
+    err = got if got in ERRS or got == "ok" else "ReferenceToInvalidSubRecipeError"
+    out = f"(OVerdict {c.opt(ERRS[err] if err != 'ok' else None, 'invariant_error')})"
+    return Case(input={"kind": "fork", "steps": steps}, coq_in=f"(VRecipe {jblocks(bs)})", coq_out=out, impl=got,
+                violation=viol, nontrivial=True,
+                tags=["construct-Recipe", "construct-fork", "recipe-" + ("refused" if got != "ok" else "accepted"), tag])
+
+
+def gen_fork_cases(rng: random.Random, n: int) -> List[Case]:
+    out: List[Case] = []
+    for _ in range(n):
+        a = g_sub(rng, rng.choice([1, 2]), [])
+        r1 = g_sub(rng, rng.choice([1, 1, 2]), [])
+        r2 = g_sub(rng, 1, [])
+        use = lambda sr: {"S": [g_svs(rng), [{"R": [sr, 0, g_amount(rng)]}, g_ing(rng)]]}   # noqa: E731
+        base = {"trees": [a, g_ing(rng)], "follows": None}
+        scen = rng.choice(["sibling-root", "sibling-root", "later-block-root", "later-block-root", "inner-follower",
+                           "fork-valid", "fork-valid-own-root"])
+        if scen == "sibling-root":          # A and B both follow base; B refers to A's root
+            steps = [base, {"trees": [r1, use(r1)], "follows": 0}, {"trees": [use(r1), use(a)], "follows": 0}]
+        elif scen == "later-block-root":    # base <- c1 <- c2 built first; then another follower of base uses c2's root
+            steps = [base, {"trees": [r1], "follows": 0}, {"trees": [r2, use(r1)], "follows": 1},
+                     {"trees": [use(rng.choice([r2, r1]))], "follows": 0}]
+        elif scen == "inner-follower":      # ... or a new follower of c1 uses c2's root
+            steps = [base, {"trees": [r1], "follows": 0}, {"trees": [r2, use(r2)], "follows": 1},
+                     {"trees": [use(r1), use(r2)], "follows": 1}]
+        elif scen == "fork-valid":          # control: the second follower only uses base's root
+            steps = [base, {"trees": [r1, use(r1)], "follows": 0}, {"trees": [use(a)], "follows": 0}]
+        else:                               # control: both followers define the same root themselves
+            steps = [base, {"trees": [r1, use(r1)], "follows": 0}, {"trees": [r1, use(r1), use(a)], "follows": 0}]
+        out.append(fork_case(steps, scen))
+    return out
+
+
 # ---------------------------------------------------------------- generators of constructions (as JSON)
 
 NAMES = ["spam", "eggs", "sauce", "veg", "water", "Dough", "x", "é ü", "2 eggs", "tin 10cm", "7"]
@@ -569,7 +636,8 @@ def gen_recipe_cases(rng: random.Random, n: int) -> List[Case]:
         wrapped = {"SR": [{"S": [g_svs(rng), [{"R": [a, 0, g_amount(rng)]}]]}, [["wrapped"]], True]}
         scen = rng.choice(["valid", "valid-split", "use-first", "def-later-block", "missing-root", "nested-not-root",
                            "bumped", "retyped", "in-body", "in-embedded", "shuffle", "valid-three-blocks",
-                           "flag-flipped", "flag-flipped", "nested-earlier-block", "nested-earlier-block"])
+                           "flag-flipped", "flag-flipped", "nested-earlier-block", "nested-earlier-block",
+                           "hash-collision", "hash-collision"])
         if scen == "valid":
             bs = [[a, b, user, wrapped]]
         elif scen == "valid-split":
@@ -597,6 +665,35 @@ def gen_recipe_cases(rng: random.Random, n: int) -> List[Case]:
             if rng.random() < 0.3:
                 use = {"SR": [use, [["flagged use"]], True]}
             bs = rng.choice([[[a1, use]], [[a1], [use]], [[a1], [g_ing(rng)], [use]], [[a1, g_ing(rng)], [g_tree(rng, 1, [a1])], [use]]])
+        elif scen == "hash-collision":
+            # the reference embeds a copy that differs from the root in ONE number x -> x + (2**61 - 1): CPython gives
+            # both the same hash (0 / 2**61-1, 1 / 2**61, 1/2 / 1/2 + 2**61-1 ...), but they are different values
+            import copy
+            M = 2 ** 61 - 1
+            x = rng.choice([0, 1, 5, 300, Fraction(1, 2), Fraction(7, 3), Fraction(2, 1)])
+            where = rng.choice(["quantity", "name", "output-name"])
+            ing = {"I": [["thing"] if where != "name" else ["thing ", c.num_json(x)],
+                         {"q": [c.num_json(x if where == "quantity" else 2), rng.choice([None, "g"]), "", ""]}]}
+            names = [["out ", c.num_json(x)]] if where == "output-name" else [["out"]]
+            a1 = {"SR": [ing if rng.random() < 0.6 else {"S": [g_svs(rng), [ing]]}, names, rng.random() < 0.7]}
+            a2 = copy.deepcopy(a1)
+
+            def shift(n: Any) -> None:
+                if "I" in n:
+                    if where == "quantity":
+                        n["I"][1]["q"][0] = c.num_json(x + M)
+                    elif where == "name":
+                        n["I"][0][1] = c.num_json(x + M)
+                elif "S" in n:
+                    for i in n["S"][1]:
+                        shift(i)
+            if where == "output-name":
+                a2["SR"][1][0][1] = c.num_json(x + M)
+            else:
+                shift(a2["SR"][0])
+            root, copy_ = (a1, a2) if rng.random() < 0.5 else (a2, a1)
+            use = {"S": [g_svs(rng), [{"R": [copy_, 0, g_amount(rng)]}, g_ing(rng)]]}
+            bs = rng.choice([[[root, use]], [[root], [use]], [[root], [g_ing(rng)], [use]]])
         elif scen == "nested-earlier-block":
             # a single-output sub recipe nested (depth 1-2) inside a step of an EARLIER block is no legal target
             a1 = g_sub(rng, 1, [])
@@ -690,6 +787,7 @@ def suites(tier: str, seed: int) -> List[Suite]:
     n = 400 if tier == "quick" else 4000
     su.cases += gen_node_cases(rng, n)
     su.cases += gen_recipe_cases(rng, n)
+    su.cases += gen_fork_cases(rng, n // 4)
     with_refs = [r for _, r in corpus if has_reference(r)]
     for recipes in with_refs[: n // 2]:
         su.cases.append(recipe_case(mutate_compiled(rng, recipes), "mutated-compiled"))
@@ -713,6 +811,8 @@ def replay(inp: Any) -> Case:
         return scale_case(inp, recipes, c.num_unjson(inp["k"]), strict=False)
     if inp["kind"] == "node":
         return node_case(inp["node"], "replay")
+    if inp["kind"] == "fork":
+        return fork_case(inp["steps"], "replay")
     return recipe_case(inp["blocks"], "replay")
 
 
